@@ -67,7 +67,17 @@ func newZZListWorld(n int) *zzListWorld {
 func VerifHarness_ListingHoldsLocks() {
 	w := newZZListWorld(zz.Choose(3))
 	p := w.p
-	switch zz.Choose(9) {
+	switch zz.Choose(10) {
+	case 9:
+		// kick-existing mode: a second login of an online player's UUID kicks the older session
+		if len(w.pls) > 0 {
+			w.cfg.OnlineMode = true
+			w.cfg.OnlineModeKickExistingPlayers = true
+			q := w.player(9)
+			q.profile.ID = w.pls[0].profile.ID
+			zz.Assert(p.registerConnection(q), "kick mode refused a login")
+			zz.Reach("kick-duplicate-login")
+		}
 	case 0:
 		got := p.Players()
 		zz.Assert(len(got) == len(w.pls), "Players() does not list the registered players")
@@ -115,6 +125,7 @@ func VerifHarness_ListingHoldsLocks() {
 // consistent moment: it contains every player that stayed online throughout and nobody twice.
 func VerifHarness_ListingDuringJoinLeave() {
 	zz.MaxPreempt(2)
+	zz.RaceMonitor()
 	w := newZZListWorld(2)
 	p := w.p
 	stay, leaver := w.pls[0], w.pls[1]
@@ -161,6 +172,39 @@ func VerifHarness_ListingDuringJoinLeave() {
 		check(onServer)
 		zz.Reach("ranged-during")
 	}
+}
+
+// Two listers at once (and nothing else): listing must not write shared state except under an
+// exclusive lock. The lockset monitor covers every heap cell the listing code touches, not only the
+// declared registries, so a shared scratch buffer filled under a read lock is reported.
+func VerifHarness_TwoListers() {
+	zz.MaxPreempt(2)
+	zz.RaceMonitor()
+	w := newZZListWorld(2)
+	p := w.p
+	var a, b []Player
+	na, nb := 0, 0
+	which := zz.Choose(4)
+	list := func(out *[]Player, n *int) {
+		switch which {
+		case 0:
+			w.srv.players.Range(func(pl Player) bool { *out = append(*out, pl); return true })
+		case 1:
+			*out = p.Players()
+		case 2:
+			*out = PlayersToSlice[Player](w.srv.players)
+		case 3:
+			*n = p.PlayerCount() + w.srv.players.Len() + len(p.Servers())
+			*out = p.Players()
+		}
+	}
+	zz.Go(func() { list(&a, &na) })
+	zz.Go(func() { list(&b, &nb) })
+	zz.WaitAll()
+	for _, l := range [][]Player{a, b} {
+		zz.Assert(len(l) == 2 && l[0] != l[1], "a list taken while nothing changed does not contain each player exactly once")
+	}
+	zz.Reach("two-listers")
 }
 
 func VerifMutant_Listing() {
